@@ -186,6 +186,8 @@ func runShard(bin, prop, tier string, seed string, i, n int, wdir string, timeou
 	return so
 }
 
+var digitsRe = regexp.MustCompile(`(0x[0-9a-fA-F]+|[0-9]+)`)
+
 var frameRe = regexp.MustCompile(`^(github\.com/jcmturner/[^\s(]+)`)
 
 // crashSummary extracts the fatal line and innermost jcmturner frame from a child's log.
@@ -198,6 +200,9 @@ func crashSummary(logPath string) string {
 	first := ""
 	frame := ""
 	for i, l := range lines {
+		if strings.HasPrefix(l, "runtime: out of memory: cannot allocate") {
+			continue // the "fatal error: out of memory" line that follows is the stable one
+		}
 		if first == "" && (strings.HasPrefix(l, "fatal error:") || strings.HasPrefix(l, "panic:") || strings.HasPrefix(l, "runtime: out of memory") || strings.Contains(l, "SIGQUIT")) {
 			first = l
 			for _, m := range lines[i:] {
@@ -217,6 +222,8 @@ func crashSummary(logPath string) string {
 	if len(first) > 200 {
 		first = first[:200]
 	}
+	// sizes, addresses and goroutine numbers vary from input to input: keep the fingerprint stable
+	first = digitsRe.ReplaceAllString(first, "N")
 	return first + " @ " + frame
 }
 
